@@ -1104,6 +1104,13 @@ class Interp(object):
             return Not(opaque_le(a, b))
         if isinstance(a, (str, bytes)) and isinstance(b, type(a)):
             return {ast.Lt: a < b, ast.LtE: a <= b, ast.Gt: a > b, ast.GtE: a >= b}[type(op)]
+        if (isinstance(a, Opaque) and is_num(b)) or (isinstance(b, Opaque) and is_num(a)):
+            # a user value compared with a number (an index argument checked against a length): the value is some number we know nothing about
+            f = self._opaque_num()
+            if isinstance(a, Opaque):
+                a = f(to_z3(a.id))
+            else:
+                b = f(to_z3(b.id))
         if isinstance(a, NodeId) and isinstance(b, NodeId):
             # addresses are ordered as strings: a fixed strict total order on the universe (index order)
             za, zb = a.idx, b.idx
@@ -1123,6 +1130,13 @@ class Interp(object):
         if isinstance(op, ast.GtE):
             return za >= zb
         raise Undecided('compare op')
+
+    _OPAQUE_NUM = [None]
+
+    def _opaque_num(self):
+        if Interp._OPAQUE_NUM[0] is None:
+            Interp._OPAQUE_NUM[0] = z3.Function('opaque_as_number', z3.IntSort(), z3.RealSort())
+        return Interp._OPAQUE_NUM[0]
 
     def tuple_order(self, op, a, b):
         """lexicographic comparison of tuples (python semantics)"""
